@@ -4,14 +4,15 @@ import json, os
 HERE = os.path.dirname(os.path.abspath(__file__))
 BASE = "cd /repo && /venv/bin/python -m pytest -ra -q -p no:cacheprovider --timeout=900 --continue-on-collection-errors"
 
-CHECKS = {
- 'C10': dict(
-   engine='Framing',
-   technique='TLA+ spec Framing.tla model-checked with TLC (all segmentations x truncation offsets); TLC-enumerated behaviours replayed on the real recv_msg via a scripted socket; TLC judges every real execution (FramingJudge) and validates every recv() log against the spec (FramingTrace)',
-   text='Exhaustive TLC model checking of the receiver algorithm over every segmentation and truncation point of short streams, bound to the code in both directions: all 27k TLC behaviours are forced onto the real recv_msg and each real recv() log must be a behaviour of the spec. Long streams (to 520 KB) by TLC simulation and seeded cuts.',
-   note='Trusted: TLC, the scripted socket (reliable byte stream that may end with FIN/RST), abstraction of payload bytes to message identity. Exhaustive only for streams <= 26 bytes.',
-   design_ref='6/C10'),
-}
+import sys, glob, importlib
+sys.path.insert(0, HERE)
+CHECKS = {}
+for f in sorted(glob.glob(os.path.join(HERE, 'vf', 'drivers', '*.py'))):
+    n = os.path.basename(f)[:-3]
+    if n.startswith('_'):
+        continue
+    m = importlib.import_module('vf.drivers.' + n)
+    CHECKS.update(getattr(m, 'CHECKS', {}))
 NOT_YET = {}
 
 def main():
